@@ -49,6 +49,17 @@ class CStub:
             out[i] = tag(query, values[bounds[i]:bounds[i + 1]])
 
 
+def make_out(shape, layout):
+    """Caller-supplied output buffer: 0 none, 1 C-contiguous, 2 Fortran-ordered / strided view (not C-contiguous)."""
+    if layout == 0:
+        return None
+    if layout == 1:
+        return np.full(shape, -1, dtype=np.float32)
+    if len(shape) == 2:
+        return np.full(shape, -1, dtype=np.float32, order='F') if shape[0] > 1 and shape[1] > 1 else np.full((shape[0] + 1, shape[1] + 1), -1, dtype=np.float32)[:shape[0], :shape[1]]
+    return np.full(2 * shape[0] + 1, -1, dtype=np.float32)[1:2 * shape[0] + 1:2]
+
+
 def container(kind, sigs):
     if kind == 0:
         return SignatureArray(sigs, KS)
@@ -67,7 +78,7 @@ def _matrix_concrete(nq, nr, chunk, kind, nsel, s0, s1, s2, own_out, qkind):
     if sel is not None and any(s >= nr for s in sel):
         return True, 'selection out of range (skipped)'
     ncols = nr if sel is None else len(sel)
-    out = np.full((nq, ncols), -1, dtype=np.float32) if own_out else None
+    out = make_out((nq, ncols), own_out)
     saved = gm._cmetric
     gm._cmetric = CStub
     try:
@@ -89,13 +100,14 @@ def _matrix_concrete(nq, nr, chunk, kind, nsel, s0, s1, s2, own_out, qkind):
 def _matrix_run(nq, nr, chunk, kind, nsel, s0, s1, s2, own_out, qkind):
     a = [fork_int(nq, 1, MAXQ), fork_int(nr, 1, MAXR), fork_int(chunk, 0, MAXR + 1), fork_int(kind, 0, 2), fork_int(nsel, 0, 4),
          fork_int(s0, 0, MAXR - 1), fork_int(s1, 0, MAXR - 1), fork_int(s2, 0, MAXR - 1)]
+    oo = fork_int(own_out, 0, 2)
     with NoTracing():
-        return _matrix_concrete(*a, bool(own_out), 2 if qkind else 0)
+        return _matrix_concrete(*a, oo, 2 if qkind else 0)
 
 
-def _c05_matrix(nq: int, nr: int, chunk: int, kind: int, nsel: int, s0: int, s1: int, s2: int, own_out: bool, qkind: bool) -> bool:
+def _c05_matrix(nq: int, nr: int, chunk: int, kind: int, nsel: int, s0: int, s1: int, s2: int, own_out: int, qkind: bool) -> bool:
     """
-    pre: 1 <= nq <= MAXQ and 1 <= nr <= MAXR and 0 <= chunk <= MAXR + 1 and 0 <= kind <= 2 and 0 <= nsel <= 4
+    pre: 1 <= nq <= MAXQ and 1 <= nr <= MAXR and 0 <= chunk <= MAXR + 1 and 0 <= kind <= 2 and 0 <= nsel <= 4 and 0 <= own_out <= 2
     pre: all(0 <= s < MAXR for s in (s0, s1, s2)) and (nsel > 1 or s0 == 0) and (nsel > 2 or s1 == 0) and (nsel > 3 or s2 == 0)
     pre: ('kind' not in P or kind == P['kind']) and nsel <= MAXSEL + 1
     pre: 'longsel' not in P or (nsel == MAXSEL + 1 and nq == 1 and nr == MAXR)
@@ -106,7 +118,7 @@ def _c05_matrix(nq: int, nr: int, chunk: int, kind: int, nsel: int, s0: int, s1:
 
 def explain_c05_matrix(nq, nr, chunk, kind, nsel, s0, s1, s2, own_out, qkind):
     return {'queries': nq, 'refs': nr, 'chunksize': chunk or None, 'container': ['SignatureArray', 'SignatureList', 'list'][kind],
-            'ref_indices': None if nsel == 0 else [s0, s1, s2][:nsel - 1], 'out_supplied': own_out, 'why': _matrix_run(nq, nr, chunk, kind, nsel, s0, s1, s2, own_out, qkind)[1]}
+            'ref_indices': None if nsel == 0 else [s0, s1, s2][:nsel - 1], 'out(0 none,1 C-contiguous,2 non-contiguous)': own_out, 'why': _matrix_run(nq, nr, chunk, kind, nsel, s0, s1, s2, own_out, qkind)[1]}
 
 
 def _pairwise_concrete(n, kind, nsel, s0, s1, s2, s3, flat, own_out):
@@ -118,7 +130,7 @@ def _pairwise_concrete(n, kind, nsel, s0, s1, s2, s3, flat, own_out):
     m = n if sel is None else len(sel)
     npairs = m * (m - 1) // 2
     shape = (npairs,) if flat else (m, m)
-    out = np.full(shape, -1, dtype=np.float32) if own_out else None
+    out = make_out(shape, own_out)
     saved = gm._cmetric
     gm._cmetric = CStub
     try:
@@ -151,13 +163,14 @@ def _pairwise_concrete(n, kind, nsel, s0, s1, s2, s3, flat, own_out):
 def _pairwise_run(n, kind, nsel, s0, s1, s2, s3, flat, own_out):
     a = [fork_int(n, 1, MAXR), fork_int(kind, 0, 2), fork_int(nsel, 0, 5), fork_int(s0, 0, MAXR - 1), fork_int(s1, 0, MAXR - 1),
          fork_int(s2, 0, MAXR - 1), fork_int(s3, 0, MAXR - 1)]
+    oo = fork_int(own_out, 0, 2)
     with NoTracing():
-        return _pairwise_concrete(*a, bool(flat), bool(own_out))
+        return _pairwise_concrete(*a, bool(flat), oo)
 
 
-def _c05_pairwise(n: int, kind: int, nsel: int, s0: int, s1: int, s2: int, s3: int, flat: bool, own_out: bool) -> bool:
+def _c05_pairwise(n: int, kind: int, nsel: int, s0: int, s1: int, s2: int, s3: int, flat: bool, own_out: int) -> bool:
     """
-    pre: 1 <= n <= MAXR and 0 <= kind <= 2 and 0 <= nsel <= 5 and all(0 <= s < MAXR for s in (s0, s1, s2, s3))
+    pre: 1 <= n <= MAXR and 0 <= kind <= 2 and 0 <= nsel <= 5 and all(0 <= s < MAXR for s in (s0, s1, s2, s3)) and 0 <= own_out <= 2
     pre: (nsel > 1 or s0 == 0) and (nsel > 2 or s1 == 0) and (nsel > 3 or s2 == 0) and (nsel > 4 or s3 == 0)
     pre: ('kind' not in P or kind == P['kind']) and nsel <= MAXSEL + 2
     pre: 'longsel' not in P or (nsel == MAXSEL + 2 and n == MAXR)
@@ -168,7 +181,7 @@ def _c05_pairwise(n: int, kind: int, nsel: int, s0: int, s1: int, s2: int, s3: i
 
 def explain_c05_pairwise(n, kind, nsel, s0, s1, s2, s3, flat, own_out):
     return {'n': n, 'container': ['SignatureArray', 'SignatureList', 'list'][kind], 'indices': None if nsel == 0 else [s0, s1, s2, s3][:nsel - 1], 'flat': flat,
-            'out_supplied': own_out, 'why': _pairwise_run(n, kind, nsel, s0, s1, s2, s3, flat, own_out)[1]}
+            'out(0 none,1 C-contiguous,2 non-contiguous)': own_out, 'why': _pairwise_run(n, kind, nsel, s0, s1, s2, s3, flat, own_out)[1]}
 
 
 def _chunks_run(n, size):
@@ -205,7 +218,7 @@ def _array_concrete(nr, kind, own_out, dtype_i):
     q = sig(1, ['u4', 'i4', 'u8', 'i8', 'u2'][dtype_i])
     refs_l = [sig(8 + j, 'u4' if kind != 2 else ['u4', 'i8', 'u2'][j % 3]) for j in range(nr)]
     refs = container(kind, refs_l)
-    out = np.full(nr, -1, dtype=np.float32) if own_out else None
+    out = make_out((nr,), own_out)
     saved = gm._cmetric
     gm._cmetric = CStub
     try:
@@ -223,13 +236,14 @@ def _array_concrete(nr, kind, own_out, dtype_i):
 def _array_run(nr, kind, own_out, dtype_i):
     a = [fork_int(nr, 0, MAXR), fork_int(kind, 0, 2)]
     d = fork_int(dtype_i, 0, 4)
+    oo = fork_int(own_out, 0, 2)
     with NoTracing():
-        return _array_concrete(*a, bool(own_out), d)
+        return _array_concrete(*a, oo, d)
 
 
-def _c05_array(nr: int, kind: int, own_out: bool, dtype_i: int) -> bool:
+def _c05_array(nr: int, kind: int, own_out: int, dtype_i: int) -> bool:
     """
-    pre: 0 <= nr <= MAXR and 0 <= kind <= 2 and 0 <= dtype_i <= 4
+    pre: 0 <= nr <= MAXR and 0 <= kind <= 2 and 0 <= dtype_i <= 4 and 0 <= own_out <= 2
     post: _
     """
     return _array_run(nr, kind, own_out, dtype_i)[0]
